@@ -970,8 +970,14 @@ impl Formatter {
       };
       format!("[{}]: {}",node.id.to_string(), citation_text)
     };
-    self.citations[citation_num - 1] = formatted_citation;
-    String::new()
+    if self.html {
+      self.citations[citation_num - 1] = formatted_citation;
+      String::new()
+    } else {
+      // Plain text keeps the citation where it was written; the collected list is an HTML section.
+      self.citations.clear();
+      format!("{}\n", formatted_citation)
+    }
   }
 
   pub fn float(&mut self, node: &Box<SectionElement>, float_dir: &FloatDirection) -> String {
